@@ -49,6 +49,7 @@ def r_format(P, R):
     optionality(P, R)
     json_fields(P, R)
     whole_dump(P, R)
+    json_ids(P, R)
 r_format.NAME = 'R-FORMAT'
 
 
@@ -541,4 +542,76 @@ def r_dispatch(P, R):
                     line=g.lineno)
     else:
         R.undecided('R-DISPATCH', g.qualname, 'let', 'unrecognised form')
+    # the manager's let() decides by the type of the FIRST value what all
+    # values are: a helper that converts Function values must turn every
+    # one of them into the same kind of thing (its node), not some of
+    # them into Booleans
+    for h in [x for x in ast.walk(g.node) if isinstance(
+            x, ast.FunctionDef) and x is not g.node]:
+        rets = [r for r in ast.walk(h) if isinstance(r, ast.Return)
+                and r.value is not None]
+        kinds = set()
+        for r in rets:
+            v = r.value
+            if isinstance(v, ast.Attribute) and v.attr == 'node':
+                kinds.add('node')
+            elif isinstance(v, (ast.Compare, ast.BoolOp)) or (
+                    isinstance(v, ast.Constant) and isinstance(
+                        v.value, bool)) or (isinstance(
+                            v, ast.Call) and au.call_name(v) == 'bool'):
+                kinds.add('bool')
+            else:
+                kinds.add('other')
+        if 'node' in kinds and 'bool' in kinds:
+            bad = [r for r in rets if not (isinstance(
+                r.value, ast.Attribute) and r.value.attr == 'node')][0]
+            R.violation(
+                'R-DISPATCH', 'mixed-kinds', g.qualname, h.name,
+                f'the helper `{h.name}` returns a node for some Function '
+                f'values and a Boolean for others (`{au.short(bad, 40)}`'
+                '): the manager decides by the first value whether ALL '
+                'values are Booleans (cofactor) or nodes (compose), so a '
+                'mixed dictionary is handled as the wrong kind - nodes '
+                'read as True, or False used as a node',
+                unit=g.unit.rel, line=bad.lineno)
+        elif kinds == {'node'}:
+            R.holds('R-DISPATCH', g.qualname,
+                    f'`{h.name}` converts every Function to its node')
 r_dispatch.NAME = 'R-DISPATCH'
+
+
+def json_ids(P, R):
+    """Two numberings meet in the JSON loader: the node ids of the FILE
+    and the node numbers of the receiving MANAGER.  The memo (`cache`)
+    maps the first to the second.  `bdd._add_int(n)` takes a manager
+    number: its argument has to come out of the memo, never be a file id
+    (a key of the memo, a field of a record)."""
+    n = 0
+    for f in sorted(P.all_funcs({'dd._copy'}), key=lambda f: f.qualname):
+        for c in au.calls_in(f.node, '_add_int'):
+            if not c.args:
+                continue
+            n += 1
+            a = c.args[0]
+            src = a
+            if isinstance(a, ast.Name):
+                defs = au.assignments_to(f.node, a.id)
+                if len(defs) == 1:
+                    src = defs[0].value
+            from_memo = isinstance(src, ast.Subscript) and isinstance(
+                src.value, ast.Name) and src.value.id in f.params
+            if from_memo:
+                R.holds('R-FORMAT', f.qualname,
+                        f'`{au.short(c, 40)}`: manager number read from '
+                        f'the memo `{src.value.id}`')
+            else:
+                R.violation(
+                    'R-FORMAT', 'file-id-as-node', f.qualname,
+                    au.short(a, 30),
+                    f'`{au.short(c, 50)}` makes a reference from '
+                    f'`{au.short(src, 40)}`, which is not a number taken '
+                    'out of the loader\'s memo: a node id of the file is '
+                    'used as a node number of the manager (right only '
+                    'when a file is loaded into the manager it was '
+                    'dumped from)', unit=f.unit.rel, line=c.lineno)
+    R.floor('R-FORMAT _add_int sites in dd._copy', n, 1)
